@@ -165,7 +165,10 @@ def _batch_one(req):
     ctx, docs = _BATCH['ctx'], _BATCH['docs']
     doc_key, fn, sel, target, kw = req
     doc, order, index = docs[doc_key]
-    tgt = doc if target is None else ([order[i] for i in target] if isinstance(target, (list, tuple)) else order[target])
+    if isinstance(target, tuple) and target and target[0] == 'iter':
+        tgt = iter([order[i] for i in target[1]])          # a one-shot iterable (generator, tag.children, map(...))
+    else:
+        tgt = doc if target is None else ([order[i] for i in target] if isinstance(target, (list, tuple)) else order[target])
     try:
         st, r = api(ctx, fn, sel, tgt, **dict(kw))
     except AnalysisError as e:
